@@ -1,24 +1,4 @@
 HOOK_COMMITS = []
 NOTES = ("Every check: translator -> coqc (Properties_<id>.v, Print Assumptions, grep gate) -> harness rebuilt from /repo's working tree "
          "-> model (extracted OCaml) vs implementation -> property oracle -> known_findings.json protocol. See DESIGN.md.")
-
-check("C04",
-  "Kernel-checked theorems (Properties_C04.v: terminates, accepts_iff, rejects_iff, post, call_operator) about EvalModel.searchcenters for every "
-  "well-formed table, every dimension count and every non-NaN coordinate vector, over any arithmetic whose comparison is a total preorder (so +-inf, "
-  "signed zeros and denormals are covered). The model is compared exactly (success flag, centers, call-operator result) with the C++ member function, "
-  "the evaluator object and the C wrapper on generated tables/points aimed at the proof's case splits; the property's statement is also evaluated "
-  "directly on the implementation's output.",
-  "Trusted: Coq kernel; IEEE comparison is a total preorder on non-NaN doubles (assumed); unbounded integers in the model; the differential tie "
-  "(generator reach) between model and C++; extraction + OCaml floats for running the model.",
-  "Coq proof of binary-search invariant over an abstract total preorder + exact differential correspondence", "§4 C04")
-
-check("C03",
-  "Kernel-checked theorems for EVERY arithmetic (no float laws): the generic, per-dimension, constant-order and known-mixed-order routines (scalar and multi-basis) "
-  "compute the same term whenever the specialised routine is applicable (C03_cores_agree); the dispatch table TRANSLATED from get_evaluator on every run only ever selects "
-  "applicable routines and always selects one (C03_dispatch_table_sound/_total by vm_compute over the finite table, lifted by C03_dispatch_sound/_total); hence the evaluator "
-  "object equals the member functions (C03_evaluator_eq_member); gradient lane 0 is the plain value and lane j+1 the bitmask derivative 2^j (C03_value_lane); "
-  "bspline_nonzero = (bsplvb_simple, bspline_deriv_nonzero). Tie: two harness builds (with/without PHOTOSPLINE_NO_EVAL_TEMPLATES) compare every path bitwise with the "
-  "model of the routine actually selected (function-pointer identity vs the model's selection), and the property itself (all paths bit-identical) is evaluated on the implementation.",
-  "Trusted: Coq kernel; translator's reading of the switch (fails closed, cross-checked at run time by pointer identity); SIMD lanes modelled as independent scalar lanes; "
-  "differential tie; C wrappers compared, not modelled separately.",
-  "Coq structural proof (any arithmetic) + translated dispatch table obligations + bitwise differential correspondence", "§4 C03")
+# per-property entries live in tools/manifest.d/<id>.py (one check(...) call each)
